@@ -26,6 +26,11 @@ from symx.series_tools import load_irispie
 from symx.report import standard_main
 
 PID = "C01"
+
+# a measurement equation with a LEAD of a transition variable (must hold under conditional expectations like any other equation)
+MLEAD = zoo.ZModel(
+    "mlead", ("x",), ("e",), ("x = a*x[-1] + e",), dict(a=Fraction(1, 2)),
+    mvars=("o1", "o2"), meqs=("o1 = x[+1]", "o2 = 2*x"), tags=("measurement", "backward", "measurement_lead"), forward=1)      # x[+1] enters the system vector as a forward-looking element
 TOL = Fraction(1, 10 ** 9)
 
 
@@ -207,6 +212,70 @@ def equations_hold(run, ir, zm, deviation, nsim, n_ant):
         run.unknown(key, "no path with a symbolic residual")
         return
     run.ok(key)
+
+
+def span_extension(run, ir, zm, deviation, nsim):
+    """the simulation over nsim periods equals the first nsim periods of the simulation over nsim+2 periods with the same inputs and
+    no shocks in the added periods (shocks are expected to be zero beyond the span): in particular anticipated shocks dated in the LAST
+    period of the span have their full effect.  Together with equations_hold on the longer span this covers the equations of the
+    last periods, whose leads lie beyond the span."""
+    key = f"span_extension:{zm.name}:dev={deviation}:nsim={nsim}"
+    finding = f"first_order:span_extension:{zm.name}"
+    case = dict(kind="span_extension", model=zm.name, deviation=deviation, nsim=nsim)
+    m, db_s, span_s, ant_s, steady = _setup(ir, zm, nsim, nsim, deviation)
+    _m, db_l, span_l, ant_l, _st = _setup(ir, zm, nsim + 2, nsim, deviation, model=m)
+    shock_rows = set(zm.tshocks) | set(zm.mshocks)
+    for n in shock_rows:
+        x = db_l[n].copy()
+        for k in (nsim, nsim + 1):
+            x[span_l.start + k] = 0.0
+        db_l[n] = x
+    ants = {"ant_" + s for s in zm.tshocks}
+    where = lambda nm, k: ((nm not in ants) or ((nm, k) in ant_s)) and not (nm in shock_rows and k >= nsim)
+    caps = []
+    paths = []
+    for db, span in ((db_s, span_s), (db_l, span_l)):
+        with fo.FirstOrderLift(ir, _lift_rows(zm), lift_where=where) as L, S.Path() as path:
+            m.simulate(db, span, method="first_order", deviation=deviation)
+        caps.append(L.caps[0])
+        paths.append(path)
+    (cs, cl) = caps
+    rs, rl = {n: i for i, n in enumerate(cs["names"])}, {n: i for i, n in enumerate(cl["names"])}
+    bs, bl = cs["base_columns"][0], cl["base_columns"][0]
+    claims = []
+    for v in list(zm.tvars) + list(zm.mvars):
+        for k in range(nsim):
+            a, b = _cell_term(cs["out"][rs[v], bs + k]), _cell_term(cl["out"][rl[v], bl + k])
+            if a is None or b is None:
+                if (a is None) != (b is None):
+                    run.counterexample(key, finding, f"{v}@{k} missing in one of the two simulations", dict(case, values={}))
+                    return
+                continue
+            claims.append((f"{v}@{k}", a, b))
+    syms = dict(cs["syms"]); syms.update(cl["syms"])
+    assume = _box(syms) + [p.condition() for p in paths]
+    r0, _ = run.check_sat(assume, timeout_ms=20000)
+    if r0 != "sat" or not claims:
+        run.unknown(key, f"reachability witness {r0} / {len(claims)} claims")
+        return
+    run.reach_ok += 1
+    tol = Fraction(1, 10 ** 8)
+    viol = z3.Or(*[z3.Or(a - b > tol, a - b < -tol) for _, a, b in claims])
+    r, mdl = run.check_sat(assume + [viol], timeout_ms=60000)
+    if r == "unsat":
+        run.ok(key)
+    elif r == "sat":
+        bad = []
+        for labl, a, b in claims:
+            d = mdl.eval(a - b, model_completion=True)
+            fv = Fraction(d.numerator_as_long(), d.denominator_as_long())
+            if abs(fv) > tol:
+                bad.append((labl, float(fv)))
+        vals = model_values(mdl, sorted(syms))
+        run.counterexample(key, finding, f"the simulation over {nsim} periods differs from the first {nsim} periods of the one over {nsim + 2}: {bad[:4]}",
+                           dict(case, bad=bad[:6], values={n: [v.numerator, v.denominator] for n, v in vals.items()}))
+    else:
+        run.unknown(key, f"solver {r}")
 
 
 def equations_hold_history(run, ir, zm, deviation, nsim, horizons):
@@ -428,7 +497,7 @@ def main(run):
                         "the shock in an equation is the sum of its unanticipated and anticipated (ant_) component"]
     run.outside += ["that ordqz/schur produce the decomposition (LAPACK)", "models outside the zoo, nonlinear models (see C06)",
                     "count of unstable roots: concrete cross-check on the zoo only"]
-    models = zoo.zoo()
+    models = zoo.zoo() + [MLEAD]
     quick = run.tier == "quick"
     for zm in models:
         try:
@@ -440,12 +509,26 @@ def main(run):
                 continue
             nsim = 5 if quick else 6
             n_ant = 2 if quick else 3
-            try:
-                equations_hold(run, ir, zm, deviation, nsim, n_ant)
-            except S.SymbolicBranchError as exc:
-                run.unknown(f"equations:{zm.name}:dev={deviation}", exc)
-            except Exception as exc:
-                run.error(f"equations:{zm.name}:dev={deviation}", exc)
+            # (span, number of leading periods with an anticipated shock): the main structure; anticipated shocks in EVERY period incl. the
+            # last one (a one-period span leaves no period whose leads are inside the span, so it has no checkable equation)
+            structs = [(nsim, n_ant)]
+            if zm.tshocks and deviation:
+                structs += [(3, 3)]
+            for (ns, na) in structs:
+                try:
+                    equations_hold(run, ir, zm, deviation, ns, na)
+                except S.SymbolicBranchError as exc:
+                    run.unknown(f"equations:{zm.name}:dev={deviation}:{ns}:{na}", exc)
+                except Exception as exc:
+                    run.error(f"equations:{zm.name}:dev={deviation}:{ns}:{na}", exc)
+        if zm.tshocks:
+            for deviation in ((True,) if quick else (True, False)):
+                try:
+                    span_extension(run, ir, zm, deviation, 3)
+                except S.SymbolicBranchError as exc:
+                    run.unknown(f"span_extension:{zm.name}:dev={deviation}", exc)
+                except Exception as exc:
+                    run.error(f"span_extension:{zm.name}:dev={deviation}", exc)
         if zm.tshocks and (not quick or zm.name in ("nk3", "pc_const")):
             for hz in (((1,), (0, 3), (2,)), ((0,), (0, 1, 2, 3), (1, 3))):
                 try:
@@ -474,7 +557,7 @@ def main(run):
 def replay(case):
     ir = load_irispie()
     kind = case["kind"]
-    zm = zoo.by_name(case["model"]) if "model" in case else None
+    zm = (MLEAD if case.get("model") == "mlead" else zoo.by_name(case["model"])) if "model" in case else None
     vals = {k: float(Fraction(a, b)) for k, (a, b) in case.get("values", {}).items()}
     if kind == "unstable_count":
         m = fo.build_model(ir, zm)
@@ -482,6 +565,28 @@ def replay(case):
         n_unst = sum(1 for s in st if "UNSTABLE" in str(s))
         n_unit = sum(1 for s in st if "UNIT" in str(s))
         return (n_unst != zm.forward or n_unit != zm.unit_roots), f"{n_unst} unstable, {n_unit} unit"
+    if kind == "span_extension":
+        deviation, nsim = case["deviation"], case["nsim"]
+        m, db_s, span_s, ant_s, steady = _setup(ir, zm, nsim, nsim, deviation, values=vals)
+        _m, db_l, span_l, ant_l, _st = _setup(ir, zm, nsim + 2, nsim, deviation, values=vals, model=m)
+        for n in set(zm.tshocks) | set(zm.mshocks):
+            x = db_l[n].copy()
+            for k in (nsim, nsim + 1):
+                x[span_l.start + k] = 0.0
+            db_l[n] = x
+        o_s = m.simulate(db_s, span_s, method="first_order", deviation=deviation)
+        o_l = m.simulate(db_l, span_l, method="first_order", deviation=deviation)
+        worst, msg = 0.0, "the two simulations agree"
+        for v in list(zm.tvars) + list(zm.mvars):
+            for k in range(nsim):
+                a = float(np.asarray(o_s[v].get_data(span_s.start + k)).reshape(-1)[0])
+                b = float(np.asarray(o_l[v].get_data(span_s.start + k)).reshape(-1)[0])
+                if math.isnan(a) and math.isnan(b):
+                    continue
+                d = abs(a - b)
+                if not d <= worst:
+                    worst, msg = (d if d == d else float("inf")), f"{v}@{k}: {a!r} over {nsim} periods vs {b!r} over {nsim + 2}"
+        return worst > 1e-7, msg
     if kind == "history":
         # replay the same history of simulations on one model object; evaluate the oracle on the failing step
         deviation, nsim = case["deviation"], case["nsim"]
